@@ -1,5 +1,7 @@
 package main
 
+import "strings"
+
 // C14 — no input crashes or hangs emerge: the zero-annotation safety sweep (nil dereference, index and slice
 // bounds, type assertions, writes to nil maps, explicit panics, division, sized-integer overflow, loop/recursion
 // termination where a measure is declared) over every function of the repository that is under contract,
@@ -14,7 +16,24 @@ func init() {
 			"./internal/ebnf/parser/spec", "./internal/regex/parser", "./internal/regex/parser/nfa", "./internal/regex/parser/ast"},
 		Prepare: prepareAll,
 		// bounded stand-in for the dependency reader (see C13): only the non-termination class belongs to this property
-		Extra: func(c *CheckCtx) error { return conformInput(c, map[string]bool{"lexeme-loop-diverges": true}) },
+		Extra: func(c *CheckCtx) error {
+			if err := conformInput(c, map[string]bool{"lexeme-loop-diverges": true}); err != nil {
+				return err
+			}
+			// bounded stand-in for the dependency's table builder (see C06): only its panics belong to this property
+			n := len(c.ExtraFindings)
+			if err := lalrConformance(c); err != nil {
+				return err
+			}
+			kept := c.ExtraFindings[:n]
+			for _, f := range c.ExtraFindings[n:] {
+				if strings.Contains(f.What, "panicked") {
+					kept = append(kept, f)
+				}
+			}
+			c.ExtraFindings = kept
+			return nil
+		},
 		OnlyContracted: true,
 		Select: []Selector{
 			{Units: `emerge/(cmd/emerge|internal/command|internal/generate/golang|internal/ebnf/lexer|internal/ebnf/parser|internal/ebnf/parser/spec|internal/regex/parser|internal/regex/parser/nfa|internal/regex/parser/ast)\.`, Kinds: safetyKinds},
